@@ -151,7 +151,8 @@ def option_probes(rep, thorough):
     delims = [',', '|', ';', '\t'] if thorough else [',', '|']
     quotes = ['"', "'"]
     headers = [False, True]
-    cells = ["plain", "a,b", "a|b", 'say "hi"', "it's", "two\nlines", " padded ", "NULL", "x;y", "tab\there", " ", "   ", "null", " NULL "]
+    cells = ["plain", "a,b", "a|b", 'say "hi"', "it's", "two\nlines", " padded ", "NULL", "x;y", "tab\there", " ", "   ", "null", " NULL ",
+             "back\\slash", "c:\\dir,x", "c:\\dir|x", 'q \\"q\\" q', "it\\'s", "end\\", "nl\\\nx", "#hash", "a\rb", "\u00e9\u4e2d"]
     n = ok = 0
     seen = set()
     for d, q, h in itertools.product(delims, quotes, headers):
